@@ -229,7 +229,7 @@ let solve_consistent (al : float list list) (bl : float list) : float list =
   let colp = Array.init n (fun i -> i) in
   let amax = ref 0. in
   for i = 0 to n - 1 do for j = 0 to n - 1 do amax := max !amax (abs_float a.(i).(j)) done done;
-  let thr = 1e-9 *. !amax in
+  let thr = max (1e-9 *. !amax) 1e-14 in
   let rank = ref 0 in
   (try
     for k = 0 to n - 1 do
@@ -279,6 +279,27 @@ let rank_of (a0 : float list list) : int =
       rank := k + 1
     done with Exit -> ());
   !rank
+(* is the rank decision clear?  (no entry of the reduced matrix in the band between "zero up to rounding" and a pivot) *)
+let rank_clear (a0 : float list list) : bool =
+  let amax = List.fold_left (fun m row -> List.fold_left (fun m x -> max m (abs_float x)) m row) 0. a0 in
+  if amax = 0. then true else begin
+    let r = List.length a0 in let cdim = List.length (List.hd a0) in
+    let a = Array.of_list (List.map Array.of_list a0) in
+    let ok = ref true in
+    (try for k = 0 to (min r cdim) - 1 do
+        let best = ref (-1.) and pi = ref k and pj = ref k in
+        for i = k to r - 1 do for j = k to cdim - 1 do
+            if abs_float a.(i).(j) > !best then (best := abs_float a.(i).(j); pi := i; pj := j) done done;
+        if !best <= 1e-6 *. amax then begin
+          (* everything that is left must be exactly zero for the decision to be independent of thresholds *)
+          if !best > 0. then ok := false; raise Exit end;
+        let tmp = a.(k) in a.(k) <- a.(!pi); a.(!pi) <- tmp;
+        for i = 0 to r - 1 do let x = a.(i).(k) in a.(i).(k) <- a.(i).(!pj); a.(i).(!pj) <- x done;
+        for i = k + 1 to r - 1 do
+          let d = a.(i).(k) /. a.(k).(k) in
+          for j = k to cdim - 1 do a.(i).(j) <- a.(i).(j) -. d *. a.(k).(j) done done
+      done with Exit -> ());
+    !ok end
 
 (* ---------- constraint commands ---------- *)
 let baum_of (r : float cRow) err errd = match r with
@@ -414,9 +435,15 @@ let cons_cmd c cmd t seq =
     let ((w, sy), _) = forward_dynamics_constraints fo m m.ws q qd (zeros n_qd) c.crows fe in
     setw c w;
     let nu = List.length (List.filter (fun b -> not b) c.act) in
-    let r = rank_of (gpt sy.cG c.act) in
-    line "o" seq "fullact" (fun () -> ou (if r = nu then 1 else 0));
-    spec_try (fun () -> line "s" seq "fullact" (fun () -> ou (if rank_of (gpt (spec_G q) c.act) = nu then 1 else 0)))
+    let gp = gpt sy.cG c.act in
+    let gmax = List.fold_left (fun m row -> List.fold_left (fun m x -> max m (abs_float x)) m row) 0. gp in
+    if nu > 0 && gp <> [] && (gmax < 1e-9 || not (rank_clear gp)) then
+      (* G P^T is zero up to rounding noise: a rank decision on noise is not compared *)
+      line "o" seq "fullact" (fun () -> os "singular")
+    else begin
+      let r = rank_of gp in
+      line "o" seq "fullact" (fun () -> ou (if r = nu then 1 else 0));
+      spec_try (fun () -> line "s" seq "fullact" (fun () -> ou (if rank_of (gpt (spec_G q) c.act) = nu then 1 else 0))) end
   | "asmq" ->
     let step = (str t = "step") in let sfx = if step then "" else "_full" in
     let q0 = vec t in let wts = vec t in let tol = num t in let maxit = integer t in
